@@ -226,6 +226,8 @@ THREAD_PAIRS = {
     'asmodel_vs_plain': ('G1', ('a b', {'asmodel': True}), ('a b', {})),
     'leftrec_ok_fail': ('G3', ('1+2+3', {}), ('1+', {})),
     'noguard_vs_plain': ('G4', ('ab', {'nameguard': False}), ('ab', {})),
+    # the same after a long history of semantic-action calls in the process (process-wide caches at their working size), line events inside the modules that own shared state
+    'semA_semB_warm': ('G1', ('a b', {'semantics': 'A'}), ('b a', {'semantics': 'B'})),
     'generated_two_objects': ('G1gen', ('a b', {'semantics': 'A'}), ('a', {})),
 }
 G4 = "start: 'a' 'b' $ ;\n"
@@ -286,10 +288,28 @@ def _thread_shape(r):
     return ['exception', type(v).__name__, str(v)[:80]]
 
 
+HOT_FILES = ('tatsu/util/typetools.py', 'tatsu/util/boundeddict.py', 'tatsu/objectmodel/synth.py', 'tatsu/api/api.py')
+_WARMED = []
+
+
+def _warm_history():
+    """once per process: more than a thousand semantic-action calls have already been made (process-wide caches are full-grown, not cold)"""
+    if _WARMED:
+        return
+    _WARMED.append(True)
+    import tatsu
+    m = tatsu.compile(G1, name='THWarm')
+    sa = SemA()
+    for _ in range(700):
+        m.parse('a b', semantics=sa)
+
+
 def thread_event_counts(pair, granularity):
     from ..sched import run_schedule
+    if pair.endswith('_warm'):
+        _warm_history()
     thunks, _ = _thread_setup(pair, 'cnt' + granularity)
-    _, counts = run_schedule(thunks, [], granularity=granularity)
+    _, counts = run_schedule(thunks, [], granularity=granularity, line_files=HOT_FILES)
     return counts
 
 
@@ -300,6 +320,9 @@ def make_threads(spec):
     who = spec['who']                    # the thread that is preempted (it also starts)
     lo, hi = spec['lo'], spec['hi']
     serial = [0]
+
+    if pair.endswith('_warm'):
+        _warm_history()
 
     def reference():
         thunks, third = _thread_setup(pair, f'ref{who}_{lo}')
@@ -316,7 +339,7 @@ def make_threads(spec):
         serial[0] += 1
         thunks, third = _thread_setup(pair, f'{who}_{lo}_{serial[0]}', fast=False)
         try:
-            results, counts = run_schedule(thunks, [(who, p)], granularity=gran, first=who)
+            results, counts = run_schedule(thunks, [(who, p)], granularity=gran, first=who, line_files=HOT_FILES)
         except Deadlock as e:
             return False, 'deadlock', [p, str(e)]
         got = [_thread_shape(r) for r in results]
@@ -349,13 +372,11 @@ def make_threads(spec):
         import os
         if r[0] and os.environ.get('VT_REPLAY'):
             # replay in a fresh interpreter: the number of events before a given code location varies by a few units between processes
-            # (hash-order dependent traversals), so the neighbouring switch points are tried as well; any failing schedule is a demonstration
-            for d in range(1, 49):
-                for q in (a - d, a + d):
-                    if q >= 0:
-                        rr = native(q)
-                        if not rr[0]:
-                            return rr
+            # (hash-order dependent traversals, cache states), so the same point is tried again and then every switch point of the obligation's range (and 48 beyond each end); any failing schedule is a demonstration
+            for q in [a] * 2 + list(range(max(0, lo - 48), hi + 48)):
+                rr = native(q)
+                if not rr[0]:
+                    return rr
         return r
 
     body.explain = lambda args: f'pair={pair} preempted thread={who} at switch point {args[0]} ({gran} events): ' + repr(native(args[0], fast=False)) + f'\nsequential reference: {ref!r}'
@@ -389,21 +410,25 @@ def plan(tier, seed):
             obs.append(Ob(name=f'N_nomutation_{gname}_{len(settings)}_L{ln}', factory='vt.props.c10:make_nomutation', spec={'grammar': gname, 'settings': settings, 'n': ln, 'program': gname},
                           params=[(f'c{i}', 0, UNI) for i in range(ln)], budget={2: 90, 3: 400, 4: 2000}[ln], group='nomutation'))
     # thread schedules (one preemption window at every switch point)
-    tpairs = ['plain_ok_fail', 'semA_semB', 'ignorecase_vs_plain', 'asmodel_vs_plain'] if tier == 'quick' else list(THREAD_PAIRS)
+    if tier == 'quick':
+        tplan = [('plain_ok_fail', 'call'), ('semA_semB_warm', 'hot'), ('ignorecase_vs_plain', 'call'), ('asmodel_vs_plain', 'call')]
+    else:
+        tplan = [(p, 'call') for p in THREAD_PAIRS if not p.endswith('_warm')] + [('semA_semB_warm', 'hot'), ('semA_semB_warm', 'line')] + [(p, 'line') for p in THREAD_PAIRS if not p.endswith('_warm')]
+    tpairs = sorted({p for p, _ in tplan})
     chunk = 320
     tcount = 0
-    for gran in (('call',) if tier == 'quick' else ('call', 'line')):
-        for pair in tpairs:
-            counts = thread_event_counts(pair, gran)
-            for who in (0, 1):
-                top = counts[who] + 9
-                if gran == 'line':
-                    top = min(top, 4 * chunk * 3)      # thorough, line granularity: the first 3840 line events of each thread (the rest is stated as outside)
-                for lo in range(0, top, chunk if gran == 'call' else 4 * chunk):
-                    hi = min(top, lo + (chunk if gran == 'call' else 4 * chunk))
-                    tcount += hi - lo
-                    obs.append(Ob(name=f'T_{gran}_{pair}_t{who}_{lo}', factory='vt.props.c10:make_threads', spec={'pair': pair, 'who': who, 'lo': lo, 'hi': hi, 'granularity': gran, 'program': 'threads:' + pair},
-                                  params=[('p', lo, hi)], budget=300 if gran == 'call' else 1500, group='threads', require_tags=(('preempted',) if lo + 40 < counts[who] else ())))
+    for pair, gran in tplan:
+        counts = thread_event_counts(pair, gran)
+        for who in (0, 1):
+            top = counts[who] + 9
+            width = chunk if gran != 'line' else 4 * chunk
+            if gran == 'line':
+                top = min(top, width * 3)      # thorough, line granularity: the first 3840 line events of each thread (the rest is stated as outside)
+            for lo in range(0, top, width):
+                hi = min(top, lo + width)
+                tcount += hi - lo
+                obs.append(Ob(name=f'T_{gran}_{pair}_t{who}_{lo}', factory='vt.props.c10:make_threads', spec={'pair': pair, 'who': who, 'lo': lo, 'hi': hi, 'granularity': gran, 'program': 'threads:' + pair},
+                              params=[('p', lo, hi)], budget=300 if gran != 'line' else 1500, group='threads', require_tags=(('preempted',) if lo + 40 < counts[who] else ())))
     return {
         'obligations': obs,
         'level': 'other',
@@ -415,7 +440,7 @@ def plan(tier, seed):
                        '(computed in child processes). Non-mutation: the model\'s pretty text, configuration fields, rule flags, keywords and directives are fingerprinted before '
                        'and after a parse of n symbolic code points (symbolic execution, all texts). '
                        f'Thread schedules: two real threads parse with ONE compiled model (cold: never parsed with before) under a deterministic scheduler; the first thread is preempted at its '
-                       f'p-th switch point (a call event{" or line event" if tier != "quick" else ""} of code under the tatsu package), the second thread runs to its end, the first resumes; p is a symbolic selector and the '
+                       f'p-th switch point (a call event of code under the tatsu package; line events too inside the modules that own process-wide state for the warm-history pair{"; every line event in the thorough tier" if tier != "quick" else ""}), the second thread runs to its end, the first resumes; p is a symbolic selector and the '
                        f'solver enumerates every switch point ({tcount} schedules over {len(tpairs)} pairs of parses that differ in text, outcome, semantics object, ignorecase, whitespace, '
                        'start rule, parseinfo, model building; plus two objects of one generated parser class). Both results and a third parse afterwards must equal the sequential results.',
         'functions_encoded': ['tatsu.peg.base:Grammar.parse/optimized/_do_parse/newctx, tatsu.contexts.engine:ParserEngine.parse/bound and everything a parse calls, under two interleaved threads (vt/sched.py)',
